@@ -9,10 +9,12 @@
   matrix with these marginals and zeros where the votes are zero exists.
 
   Part 1: soundness of the certificate checkers the harness applies to EVERY output of the real evaluator
-          (any matrix size).  Part 2: theorems about the Lean port of tie-and-transfer.
+          (any matrix size).  Part 2: partial correctness of the Lean port of the evaluator (whatever it returns is
+          biproportional).  Part 3: a `VotingSystemError` of the port is justified (no feasible matrix exists).
 -/
 import VotelibProofs.Lemmas.Biprop
 import VotelibProofs.Lemmas.BipropInit
+import VotelibProofs.Lemmas.BipropRefusal
 namespace VL.C07
 open VL VL.Biprop Finset
 
@@ -601,6 +603,130 @@ theorem districtSeats_divisor_method {div : Nat → Rat} {q : Rat} (hdiv : Signp
       rw [hrt i hi] at this
       exact this
 
+/-! ### Part 3 — a refusal of the port is justified -/
+
+/-- **A refusing iteration is justified.**  If one pass of the loop raises `VotingSystemError` in a consistent
+    state, the labels form a Hall cut accepted by the verified checker, hence no seat matrix with the district targets,
+    the current party totals and zeros where the votes are zero exists. -/
+theorem step_refusal_justified {q : Rat} (hq : q = 0 ∨ q = 1/2) {V : Mat Rat} {tgt : List Nat} {s : State}
+    (hV : votesOk V = true) (hok : stateOk q V s = true) (h : step q V tgt s = .error .votingSystemError) :
+    (∃ S T : Nat → Bool, infeasibleCheck V.length (nCols V) (vget V) (fun i => tgt.getD i 0)
+      (fun j => sumN (fun i => mget s.x i j) V.length) S T = true) ∧
+    ¬ ∃ x : Nat → Nat → Nat,
+      (∀ i < V.length, ∑ j ∈ range (nCols V), x i j = tgt.getD i 0) ∧
+      (∀ j < nCols V, ∑ i ∈ range V.length, x i j = ∑ i ∈ range V.length, mget s.x i j) ∧
+      (∀ i < V.length, ∀ j < nCols V, vget V i j = 0 → x i j = 0) := by
+  obtain ⟨hs, hinv⟩ := stateOk_iff.mp hok
+  obtain ⟨S, T, hcut⟩ := step_refusal_cut hq (votesOk_nonneg hV) hs hinv h
+  refine ⟨⟨S, T, hcut⟩, ?_⟩
+  have := infeasible_sound _ _ _ _ _ _ _ hcut
+  simpa only [sumN_eq_sum] using this
+
+/-- **The loop never refuses a feasible instance.**  A run that starts in a consistent state and ends in
+    `VotingSystemError` certifies (by a cut the verified checker accepts) that no seat matrix with the district
+    targets, the party totals of the start state and zeros where the votes are zero exists. -/
+theorem run_refusal_justified {q : Rat} (hq : q = 0 ∨ q = 1/2) {V : Mat Rat} {tgt : List Nat}
+    (hV : votesOk V = true) :
+    ∀ (fuel : Nat) (s : State) (nt : Nat) (ups : List Rat),
+      stateOk q V s = true → run q V tgt fuel s nt ups = .error .votingSystemError →
+      ∃ S T : Nat → Bool, infeasibleCheck V.length (nCols V) (vget V) (fun i => tgt.getD i 0)
+        (fun j => sumN (fun i => mget s.x i j) V.length) S T = true
+  | 0, _, _, _, _, h => by simp [run] at h
+  | fuel+1, s, nt, ups, hok, h => by
+    have hq1 : q < 1 := by rcases hq with rfl | rfl <;> norm_num
+    obtain ⟨hs, hinv⟩ := stateOk_iff.mp hok
+    simp only [run] at h
+    cases hstep : step q V tgt s with
+    | error e =>
+      rw [hstep] at h
+      simp only [Except.error.injEq] at h
+      subst h
+      exact (step_refusal_justified hq hV hok hstep).1
+    | ok r =>
+      rw [hstep] at h
+      cases r with
+      | done => simp at h
+      | transfer s' =>
+        simp only at h
+        obtain ⟨hs', hinv', hcols⟩ := transfer_preserves_inv hs hinv hstep
+        obtain ⟨S, T, hcut⟩ := run_refusal_justified hq hV fuel s' _ _ (stateOk_iff.mpr ⟨hs', hinv'⟩) h
+        have : (fun j => sumN (fun i => mget s'.x i j) V.length) = (fun j => sumN (fun i => mget s.x i j) V.length) := by
+          funext j; rw [sumN_eq_sum, sumN_eq_sum]; exact hcols j
+        rw [this] at hcut
+        exact ⟨S, T, hcut⟩
+      | update s' cf =>
+        simp only at h
+        obtain ⟨hx, _, _, hinv'⟩ := update_preserves_inv hq1 hV hinv hstep
+        obtain ⟨S, T, hcut⟩ := run_refusal_justified hq hV fuel s' _ _
+          (stateOk_iff.mpr ⟨by rw [hx]; exact hs, hinv'⟩) h
+        rw [hx] at hcut
+        exact ⟨S, T, hcut⟩
+
+/-- **The ported evaluator refuses only infeasible instances** (both rules, any size, any fuel): if `evaluate` ends in
+    `VotingSystemError`, no non-negative integer matrix has the district apportionment as row sums, the
+    highest-averages party apportionment as column sums and zeros where the votes are zero. -/
+theorem evaluate_refusal_justified {div : Nat → Rat} {q : Rat} (hdiv : SignpostDiv div q) (hq : q = 0 ∨ q = 1/2)
+    {V : Mat Rat} {total fuel : Nat} {rows : Option (List Nat)} (hV : votesOk V = true) (hpos : hasVotes V = true)
+    (h : evaluate div q V total rows fuel = .error .votingSystemError) :
+    ∃ ps tgt, partySeats div V total = .ok ps ∧
+      (rows = some tgt ∨ (rows = none ∧ districtSeats div V total = .ok tgt)) ∧
+      ¬ ∃ x : Nat → Nat → Nat,
+        (∀ i < V.length, ∑ j ∈ range (nCols V), x i j = tgt.getD i 0) ∧
+        (∀ j < nCols V, ∑ i ∈ range V.length, x i j = ps.getD j 0) ∧
+        (∀ i < V.length, ∀ j < nCols V, vget V i j = 0 → x i j = 0) := by
+  unfold evaluate at h
+  cases hs0 : initState div q V total with
+  | error e =>
+    rw [hs0] at h
+    simp only [Except.error.injEq] at h
+    exact absurd h (initState_error hs0)
+  | ok s0 =>
+    rw [hs0] at h
+    simp only at h
+    have hok := initState_ok hdiv hV hpos hs0
+    have hinit : ∃ ps, partySeats div V total = .ok ps ∧ initialSolution div V total = .ok s0.x := by
+      unfold initState at hs0
+      cases hx : initialSolution div V total with
+      | error e => rw [hx] at hs0; simp at hs0
+      | ok x0 =>
+        rw [hx] at hs0
+        simp only [Except.ok.injEq] at hs0
+        subst hs0
+        have hx' := hx
+        unfold initialSolution at hx'
+        cases hps : partySeats div V total with
+        | error e => rw [hps] at hx'; simp at hx'
+        | ok ps => exact ⟨ps, rfl, rfl⟩
+    obtain ⟨ps, hps, hx0⟩ := hinit
+    have hcols0 := initialSolution_cols hps hx0
+    have key : ∀ tgt : List Nat, run q V tgt fuel s0 0 [] = .error .votingSystemError →
+        ¬ ∃ x : Nat → Nat → Nat,
+          (∀ i < V.length, ∑ j ∈ range (nCols V), x i j = tgt.getD i 0) ∧
+          (∀ j < nCols V, ∑ i ∈ range V.length, x i j = ps.getD j 0) ∧
+          (∀ i < V.length, ∀ j < nCols V, vget V i j = 0 → x i j = 0) := by
+      intro tgt hrun
+      obtain ⟨S, T, hcut⟩ := run_refusal_justified hq hV fuel s0 0 [] hok hrun
+      have := infeasible_sound _ _ _ _ _ _ _ hcut
+      rintro ⟨x, hr, hc, hz⟩
+      apply this
+      refine ⟨x, hr, fun j hj => ?_, hz⟩
+      rw [hc j hj, sumN_eq_sum, hcols0 j hj]
+    cases rows with
+    | some l =>
+      simp only at h
+      exact ⟨ps, l, hps, Or.inl rfl, key l h⟩
+    | none =>
+      simp only at h
+      cases hd : districtSeats div V total with
+      | error e =>
+        rw [hd] at h
+        simp only [Except.error.injEq] at h
+        exact absurd h (districtSeats_error hd)
+      | ok tgt =>
+        rw [hd] at h
+        simp only at h
+        exact ⟨ps, tgt, hps, Or.inr ⟨rfl, rfl⟩, key tgt h⟩
+
 /-! ### non-vacuity: concrete inputs that meet the hypotheses and exercise every branch -/
 
 /-- the witness of fix 7aec924 (tie inside the per-party initial allocation, one transfer) -/
@@ -631,6 +757,11 @@ example : bipropCheckL (1/2) exW [3, 2, 4] [3, 2, 4] [[3, 0, 0], [0, 1, 1], [0, 
 
 /-- a justified refusal: district 0 votes only for party 0, which holds 2 seats, but is to get 4 -/
 example : (evaluate Gen.Divisor.d_hondt 0 [[5, 0], [3, 9]] 6 (some [4, 2]) 100).toOption.isNone = true := by
+  decide +kernel
+/-- it is a `VotingSystemError` (the hypothesis of `evaluate_refusal_justified`), on a well-formed input -/
+example : (match evaluate Gen.Divisor.d_hondt 0 [[5, 0], [3, 9]] 6 (some [4, 2]) 100 with
+    | .error .votingSystemError => true
+    | _ => false) = true ∧ votesOk [[5, 0], [3, 9]] = true ∧ hasVotes [[5, 0], [3, 9]] = true := by
   decide +kernel
 example : infeasibleCheckL [[5, 0], [3, 9]] [4, 2] [2, 4] [0] [0] = true := by decide +kernel
 /-- the cut is rejected for a feasible instance -/
